@@ -363,6 +363,10 @@ func (vc *VC) shape(t types.Type) []Leaf {
 		return []Leaf{{"#t", "Int", nil}, {"#v", "Int", nil}}
 	case *types.Struct:
 		if vc.isOpaqueStruct(t) {
+			if isAtomicValue(t) {
+				// sync/atomic.Value holds an interface value
+				return []Leaf{{"#t", "Int", nil}, {"#v", "Int", nil}}
+			}
 			return []Leaf{{"", "Int", t}}
 		}
 		var out []Leaf
@@ -837,4 +841,9 @@ func (vc *VC) isGhostFam(fam string) bool {
 		name = name[:i]
 	}
 	return vc.S.Immutable[name]
+}
+
+func isAtomicValue(t types.Type) bool {
+	n, ok := types.Unalias(t).(*types.Named)
+	return ok && n.Obj().Pkg() != nil && n.Obj().Pkg().Path() == "sync/atomic" && n.Obj().Name() == "Value"
 }
